@@ -41,7 +41,7 @@ def jobs_for(tier):
         tpls = tpls + corpus.generated(quick=True, exclude={'real'})
     for t in tpls:
         for codec in ('per', 'uper'):
-            jobs.append(dict(id='%s/%s' % (t['id'], codec), template=t['id'], codec=codec, tier=tier,
+            jobs.append(dict(id='%s/%s' % (t['id'], codec), template=t['id'], codec=codec, tier=corpus.job_tier(t, tier),
                              numeric_enums=False))
     # the bit-level Encoder of per/uper from an arbitrary state (spilled chunks at any bit offset)
     # against a bit-string model: alignment and length arithmetic beyond what whole values reach
